@@ -238,7 +238,7 @@ PROPS["C26"] = dict(
                 "exhaustively on the tables obtained by executing the module-level statements extracted from the real source); intToB64(i, l) returns max(l, k) "
                 "characters whose e-th least significant one is the table entry of (i // 64**e) % 64 and whose leading ones are 'A' (two loop invariants); "
                 "b64ToInt(s) raises ValueError iff s is empty, KeyError only for a character outside the table, else returns sum D(s[n-1-e]) * 64**e (loop "
-                "invariant); LEMMA by induction over these two postconditions: b64ToInt(intToB64(i, l)) == i. BOUNDED (not proved): codeB64ToB2/codeB2ToB64/"
+                "invariant); LEMMAS by induction over these two postconditions: b64ToInt(intToB64(i, l)) == i for every i >= 0, l >= 1, and intToB64(b64ToInt(s), len(s)) == s for every non-empty string of table characters (the core of the code <-> binary round trip). BOUNDED (not proved): codeB64ToB2/codeB2ToB64/"
                 "nabSextets and the bytes flavour -- exhaustive small domain plus structured large values in harness/c26.py.")
 
 PROPS["C25"] = dict(
